@@ -1,5 +1,6 @@
 import SaModel.Lemmas.C17Range
 import SaModel.Lemmas.C17TouchTyped
+import SaModel.Lemmas.C17UntouchedTyped
 /-
 C17 — structurally inconsistent array views give an error, not a panic or foreign data.
 Property theorems only.  Model: SaModel/Read/Reader.lean (readers after the `fix:` commits = `Fixes.all`);
@@ -642,6 +643,81 @@ a view never reaches the readers, `ArrayDeserializer::new` rejects it -/
 theorem touch_needs_consecutive_ids :
     let a : Arr := .union [0] (some [0]) (.cons 5 ⟨"a", false, []⟩ (.null 1) (.cons 0 ⟨"b", false, []⟩ (.null 0) .nil))
     (readAny Fixes.all a 0).isOk = true ∧ touchOK .any a 0 = false ∧ (new Fixes.all a).isErr = true := by decide
+
+/-! ### `untouched_ok`: what is not reachable from row `i` does not influence the read at `i`
+
+`reachEq a a' i` (SaModel/Lemmas/C17Untouched.lean) is a structural relation on the DATA of two views, independent
+of the reader model and of the target: same constructors and type tags; at row `i` the same answer to "below the
+declared length", the same validity bit, value, pair of offsets, view descriptor, type id and union offset; equal
+byte buffers; and, recursively, agreement of the children at the slots row `i` refers to (struct fields at `i`, list /
+map elements `offsets[i] … offsets[i+1]-1`, fixed-size elements `i*n … (i+1)*n-1`, the dictionary value under the
+key of row `i`, the union child at position `type id` at slot `offsets[i]`).  Everything else may differ. -/
+
+mutual
+theorem agreeP_all : ∀ (t : Target), AgreeP t
+  | .any => agreeP_any
+  | .ignored => agreeP_ignored
+  | .unit => agreeP_unit
+  | .unitStruct => agreeP_unitStruct
+  | .bool => agreeP_bool
+  | .int ty => agreeP_int ty
+  | .f32 => agreeP_f32
+  | .f64 => agreeP_f64
+  | .char => agreeP_char
+  | .string => agreeP_string
+  | .str => agreeP_str
+  | .bytes => agreeP_bytes
+  | .byteBuf => agreeP_byteBuf
+  | .option t => agreeP_option (agreeP_all t)
+  | .newtype t => agreeP_newtype (agreeP_all t)
+  | .seq t => agreeP_seq (agreeP_all t)
+  | .tuple ts => agreeP_tuple (agreeP_targets ts)
+  | .tupleStruct ts => agreeP_tupleStruct (agreeP_targets ts)
+  | .map k v => agreeP_map (agreeP_all k) (agreeP_all v)
+  | .struct tfs => agreeP_struct (agreeP_fields tfs)
+  | .enum _ vs => agreeP_enum (agreeP_variants vs)
+theorem agreeP_targets : ∀ (ts : Targets), AllT AgreeP ts
+  | .nil => by unfold AllT; trivial
+  | .cons t r => by unfold AllT; exact ⟨agreeP_all t, agreeP_targets r⟩
+theorem agreeP_fields : ∀ (tfs : TFields), AllF AgreeP tfs
+  | .nil => by unfold AllF; trivial
+  | .cons _ t r => by unfold AllF; exact ⟨agreeP_all t, agreeP_fields r⟩
+theorem agreeP_variants : ∀ (vs : TVariants), AllV KAgree vs
+  | .nil => by unfold AllV; trivial
+  | .cons _ k r => by unfold AllV; exact ⟨kagree_all k, agreeP_variants r⟩
+theorem kagree_all : ∀ (k : VKind), KAgree k
+  | .unit => kagree_unit
+  | .newtype t => kagree_newtype (agreeP_all t)
+  | .tuple ts => kagree_tuple (agreeP_targets ts)
+  | .struct tfs => kagree_struct (agreeP_fields tfs)
+end
+
+/-- `untouched_ok`: two views that agree on everything reachable from row `i` give the same result (value, error
+or — excluded by `readAs_no_panic` — panic) for every typed read at `i`; in particular a corruption that is not
+reachable from `i` leaves the read at `i` what it was on the uncorrupted view.
+PARTIAL with respect to DESIGN.md's "not reachable from index i": `reachEq` is coarser than the exact footprint in
+two places — (1) the byte buffers of Utf8 / Binary / view / FixedSizeBinary columns (and the `n` of the latter) have
+to be equal as a whole, so a corrupted data byte OUTSIDE the slice row `i` designates is not covered; (2) the
+relation does not depend on the target, it covers what ANY read at `i` can reach (e.g. struct fields beyond the
+arity of a tuple target, which that target never looks at, still have to agree at `i`).  Everything else (lengths,
+validity bits, values, offsets, keys, type ids, union offsets, children slots not referenced from `i`) is exact. -/
+theorem untouched_ok_partial {t : Target} {a a' : Arr} {i : Nat} (h : reachEq a a' i = true) :
+    readAs Fixes.all t a i = readAs Fixes.all t a' i :=
+  agreeP_all t a a' i h
+
+/-- the same for `deserialize_any` and `is_some` (same two coarsenings) -/
+theorem untouched_ok_any_partial {a a' : Arr} {i : Nat} (h : reachEq a a' i = true) :
+    readAny Fixes.all a i = readAny Fixes.all a' i ∧ isSome Fixes.all a i = isSome Fixes.all a' i :=
+  ⟨readAny_agree h, isSome_agree h⟩
+
+/-- non-vacuity: a list column whose LAST offset, a value and a validity bit outside row 0 are corrupted (the
+corrupted row 1 is an error) still reads row 0 as before; the relation holds and is not trivial -/
+example :
+    let a : Arr := .list false none [0, 2, 3] ⟨"element", false, []⟩ (.prim .int32 (some ⟨[7], 0⟩) [1, 2, 3])
+    let a' : Arr := .list false none [0, 2, 99] ⟨"element", false, []⟩ (.prim .int32 (some ⟨[3], 0⟩) [1, 2, 77])
+    reachEq a a' 0 = true ∧ reachEq a a' 1 = false ∧
+    readAs Fixes.all (.seq (.int .i32)) a' 0 = .ok (.seq (.cons (.int .i32 1) (.cons (.int .i32 2) .nil))) ∧
+    (readAs Fixes.all (.seq (.int .i32)) a' 1).isErr = true := by decide
 
 /-! ### the pinned readers do panic / do return foreign elements: concrete witnesses -/
 
